@@ -181,6 +181,23 @@ def _syms(tag, n):
     return [sym("%s%d_" % (tag, i)) for i in range(n)]
 
 
+class DataDependentControl(Exception):
+    def __init__(self, ev):
+        Exception.__init__(self, "branch on a cipher output byte")
+        self.ev = ev
+
+
+def data_dependent_branch(ex):
+    """the first branch / guard event of the trace whose condition mentions a byte produced by the (uninterpreted) block function"""
+    from bfsa.terms import subterms as _st
+
+    for e in ex.trace:
+        if e.kind in ("branch", "guard", "guard2") and e.d.get("cond") is not None:
+            if any(x.op in ("aesE", "aesD") or (x.op == "uf" and str(x.args[0]) in ("aesE", "aesD")) or show(x, 1).startswith(("aesE(", "aesD(")) for x in _st(e.d["cond"])):
+                return e
+    return None
+
+
 class Session:
     """one interpreted scenario"""
 
@@ -197,6 +214,11 @@ class Session:
         try:
             res = ex.run_driver(self.prog.module(module), src, args=args)
         except Unsupported as u:
+            # a branch decided by the VALUE of a cipher output byte (key stream, ciphertext) is not "uninterpretable": in every standard mode and feeder the
+            # control flow depends on lengths and positions only.  Reported as what it is, with the branch
+            dd = data_dependent_branch(ex)
+            if dd is not None:
+                raise DataDependentControl(dd)
             raise AnalysisError("scenario not interpretable: %s\n%s" % (u, src))
         self.stmts += ex.unrolled_total
         return ex, res
@@ -280,7 +302,11 @@ def mode_call_rules(prog, chk, pid, tier):
                     args = {"key": key, "iv": sbytes(ivs) if ivs else NONE}
                     for n, v in zip(names, datas):
                         args[n] = sbytes(v)
-                    ex, res = ses.run(AESQ, src, args)
+                    try:
+                        ex, res = ses.run(AESQ, src, args)
+                    except DataDependentControl as dd_:
+                        bad = (plan, "the control flow depends on the value of a key-stream / ciphertext byte (%s at %s): a byte that happens to be 0 (or any tested value) changes which bytes are produced" % (show(dd_.ev.d["cond"], 3)[:80], dd_.ev.where))
+                        break
                     ref = Ref(key, ivs, **refkw)
                     want: List[Term] = []
                     for v in datas:
@@ -564,8 +590,11 @@ def stream_helper_rules(prog, chk, pid):
 
 
 def run_all(prog, chk, pid, tier):
-    mode_call_rules(prog, chk, pid, tier)
-    feeder_rules(prog, chk, pid, tier)
-    pkcs7_rules(prog, chk, pid)
-    shared_state_rules(prog, chk, pid)
-    stream_helper_rules(prog, chk, pid)
+    for group in (lambda: mode_call_rules(prog, chk, pid, tier), lambda: feeder_rules(prog, chk, pid, tier), lambda: pkcs7_rules(prog, chk, pid),
+                  lambda: shared_state_rules(prog, chk, pid), lambda: stream_helper_rules(prog, chk, pid)):
+        try:
+            group()
+        except DataDependentControl as dd_:
+            e = dd_.ev
+            chk.fail("%s.data-independent-control" % pid, e.fn.qualname if e.fn is not None else AESQ, "branch on %s" % show(e.d["cond"], 3)[:80], e.where,
+                     "the control flow of a mode of operation / feeder depends on the value of a byte produced by the block function: which bytes are output changes when that byte happens to have the tested value")
